@@ -4,6 +4,7 @@ go 1.15
 
 require (
 	github.com/golang/protobuf v1.3.1
+	github.com/openacid/errors v0.8.1
 	github.com/openacid/low v0.1.21
 	github.com/openacid/slim v0.0.0
 	github.com/openacid/testkeys v0.1.6
